@@ -51,63 +51,94 @@ func resetGlobals() {
 	}
 }
 
-// runCLIInSim executes `rare args...` as the body of a simulated main goroutine. It must be called
-// from inside s.Run's main function. Output files live in the current (run) directory.
-func runCLIInSim(args []string) *cliResult {
+// cliProc is one in-process invocation of rare: begin swaps the process-wide stdout/stderr/exit for per-run scratch files,
+// exec runs cliMain in the calling (simulated) goroutine, end restores everything and collects the output. A world may run
+// exec in a goroutine of its own (follow mode never returns under -F) and read OutName while it runs; end is then called
+// by the world's driver and is safe whether or not exec returned.
+type cliProc struct {
+	Res              *cliResult
+	OutName, ErrName string
+	outF, errF       *os.File
+	oldOut, oldErr   *os.File
+	oldExit          func(int)
+	Done             bool
+	ended            bool
+}
+
+func cliBegin() *cliProc {
 	cliSeq++
-	res := &cliResult{}
+	c := &cliProc{Res: &cliResult{}}
 	// outside the run directory: a glob argument must not be able to match them
-	outName := filepath.Join(baseDir, fmt.Sprintf("stdout-%d", cliSeq))
-	errName := filepath.Join(baseDir, fmt.Sprintf("stderr-%d", cliSeq))
-	outF, err := os.Create(outName)
-	if err != nil {
+	c.OutName = filepath.Join(baseDir, fmt.Sprintf("stdout-%d", cliSeq))
+	c.ErrName = filepath.Join(baseDir, fmt.Sprintf("stderr-%d", cliSeq))
+	var err error
+	if c.outF, err = os.Create(c.OutName); err != nil {
 		panic(err)
 	}
-	errF, err := os.Create(errName)
-	if err != nil {
+	if c.errF, err = os.Create(c.ErrName); err != nil {
 		panic(err)
 	}
-	oldOut, oldErr, oldExit := os.Stdout, os.Stderr, logger.OsExit
-	os.Stdout, os.Stderr = outF, errF
+	c.oldOut, c.oldErr, c.oldExit = os.Stdout, os.Stderr, logger.OsExit
+	os.Stdout, os.Stderr = c.outF, c.errF
 	// make the logger write to the swapped stderr
 	logger.DeferLogs()
 	logger.ImmediateLogs()
 	logger.OsExit = func(code int) { panic(cliExit{code}) }
 	resetGlobals()
-	func() {
-		defer func() {
-			if r := recover(); r != nil {
-				if ce, ok := r.(cliExit); ok {
-					res.Exit = ce.code
-					return
-				}
-				panic(r)
+	return c
+}
+
+func (c *cliProc) exec(args []string) {
+	res := c.Res
+	defer func() {
+		if r := recover(); r != nil {
+			if ce, ok := r.(cliExit); ok {
+				res.Exit = ce.code
+				c.Done = true
+				return
 			}
-		}()
-		err := cliMain(append([]string{"rare"}, args...)...)
-		if err != nil {
-			res.ErrMsg = err.Error()
-			if res.ErrMsg != "" {
-				logger.Print(res.ErrMsg)
-			}
-			if v, ok := err.(cli.ExitCoder); ok {
-				res.Exit = v.ExitCode()
-			} else {
-				res.Exit = helpers.ExitCodeInvalidUsage
-			}
+			panic(r)
 		}
 	}()
+	err := cliMain(append([]string{"rare"}, args...)...)
+	if err != nil {
+		res.ErrMsg = err.Error()
+		if res.ErrMsg != "" {
+			logger.Print(res.ErrMsg)
+		}
+		if v, ok := err.(cli.ExitCoder); ok {
+			res.Exit = v.ExitCode()
+		} else {
+			res.Exit = helpers.ExitCodeInvalidUsage
+		}
+	}
+	c.Done = true
+}
+
+func (c *cliProc) end() *cliResult {
+	if c.ended {
+		return c.Res
+	}
+	c.ended = true
 	logger.ImmediateLogs()
-	os.Stdout, os.Stderr, logger.OsExit = oldOut, oldErr, oldExit
+	os.Stdout, os.Stderr, logger.OsExit = c.oldOut, c.oldErr, c.oldExit
 	logger.DeferLogs()
 	logger.ImmediateLogs()
-	outF.Close()
-	errF.Close()
-	res.Stdout, _ = os.ReadFile(outName)
-	res.Stderr, _ = os.ReadFile(errName)
-	os.Remove(outName)
-	os.Remove(errName)
-	return res
+	c.outF.Close()
+	c.errF.Close()
+	c.Res.Stdout, _ = os.ReadFile(c.OutName)
+	c.Res.Stderr, _ = os.ReadFile(c.ErrName)
+	os.Remove(c.OutName)
+	os.Remove(c.ErrName)
+	return c.Res
+}
+
+// runCLIInSim executes `rare args...` as the body of a simulated main goroutine. It must be called
+// from inside s.Run's main function. Output files live outside the current (run) directory.
+func runCLIInSim(args []string) *cliResult {
+	c := cliBegin()
+	c.exec(args)
+	return c.end()
 }
 
 // runCLI runs one CLI invocation in its own bubble.
